@@ -329,7 +329,7 @@ def c02_aero_struct(rng, tier):
     from .oracles_aero import _aero_config, _flow
     out = []
     # aero point: fwd vs rev vs FD w.r.t. alpha, beta (both non-zero), Mach
-    surfaces = _aero_config(rng, tier, ns=int(rng.choice([1, 2])))
+    surfaces = _aero_config(rng, tier, ns=int(rng.choice([1, 2, 3])))
     anysym = any(s["symmetry"] for s in surfaces)
     flow = _flow(rng, alpha=float(rng.uniform(2, 10)), beta=0.0 if anysym else float(rng.uniform(3, 10)))
     ofs = ["pt.CL", "pt.CD", "pt.CM"]; wrt = ["alpha", "beta", "v", "Mach_number"] + [s["name"] + "_def_mesh" for s in surfaces]
@@ -797,8 +797,9 @@ def c16_group_totals(rng, tier):
 def c15_group_failure(rng, tier):
     """SpatialBeamAlone (tube / wingbox, KS or exact failure): the reported failure is the aggregation of the group's own von Mises
     stresses over the surface's allowable; KS lies in [max, max + ln(N)/rho]"""
-    fem = str(rng.choice(["tube", "wingbox"]))
-    exact = bool(rng.integers(2))
+    from . import oracles as _o
+    rng.choice(["tube", "wingbox"]); rng.integers(2)
+    fem = ["tube", "wingbox"][_o.CURRENT_K % 2]; exact = bool((_o.CURRENT_K // 2) % 2)      # all four combinations in every run
     s = _as_surface(rng, tier, fem=fem, exact_failure_constraint=exact)
     s["yield"] = float(rng.uniform(1e8, 4e8))
     ny = s["mesh"].shape[1]
@@ -844,6 +845,65 @@ def _approximated(prob, comp, key):
     return meta is None or meta.get("method") in ("fd", "cs")
 
 
+@oracle("C11", "group_transfer_conservation")
+def c11_group_transfer(rng, tier):
+    """in a converged aerostructural point (tube or wingbox, the wingbox dictionary carrying an unused `fem_origin`; compressible
+    or not): the structural nodal loads, placed at the displaced structural nodes of the model's own `nodes` output, and the
+    exported mesh-node forces, placed at the deformed mesh nodes, have the total force and the total moment about a random point
+    of the panel forces at the quarter-chord points of the deformed mesh"""
+    from . import oracles as _o
+    fem = ["tube", "wingbox"][_o.CURRENT_K % 2]
+    s = _as_surface(rng, tier, fem=fem)
+    compressible = bool((_o.CURRENT_K // 2) % 2)
+    flow = _as_flow(rng, Mach_number=float(rng.uniform(0.3, 0.8)) if compressible else 0.3)
+    p = pipelines.build_aerostruct([s], [flow], compressible=compressible)
+    with quiet():
+        p.run_model()
+    pre = "AS_point_0.coupled."
+    dm = np.array(p.get_val(pre + "wing.def_mesh")); F = np.array(p.get_val(pre + "aero_states.wing_sec_forces"))
+    loads = np.array(p.get_val(pre + "wing.loads")); disp = np.array(p.get_val(pre + "wing.disp")); nodes = np.array(p.get_val("wing.nodes"))
+    mpf = np.array(p.get_val(pre + "aero_states.wing_mesh_point_forces"))
+    qc = 0.75 * 0.5 * (dm[:-1, :-1] + dm[:-1, 1:]) + 0.25 * 0.5 * (dm[1:, :-1] + dm[1:, 1:])
+    P = rng.normal(size=3) * 3
+    case = dict(fem_model_type=fem, symmetry=s["symmetry"], ny=int(dm.shape[1]), compressible=compressible, alpha=flow["alpha"],
+                Mach_number=flow["Mach_number"], fem_origin_key=s.get("fem_origin"), point=P.tolist())
+    out = []
+    Ftot = F.sum(axis=(0, 1)); Mtot = np.cross(qc - P, F).sum(axis=(0, 1))
+    fs = np.abs(F).max(); ms = max(np.abs(Mtot).max(), fs)
+    if np.max(np.abs(loads[:, :3].sum(axis=0) - Ftot)) > 1e-9 * fs * F[..., 0].size:
+        out.append(_fail("coupled point: total structural nodal force != total panel force", loads[:, :3].sum(axis=0), Ftot, **case))
+    xs = nodes + disp[:, :3]
+    Mn = loads[:, 3:].sum(axis=0) + np.cross(xs - P, loads[:, :3]).sum(axis=0)
+    if np.max(np.abs(Mn - Mtot)) > 1e-8 * ms * F[..., 0].size:
+        out.append(_fail("coupled point: total moment of the structural nodal loads (at the displaced structural nodes) != total moment of "
+                         "the panel forces at the quarter-chord points of the deformed mesh", Mn, Mtot, **case))
+    if np.max(np.abs(mpf.sum(axis=(0, 1)) - Ftot)) > 1e-9 * fs * F[..., 0].size:
+        out.append(_fail("coupled point: exported mesh-node forces do not sum to the panel forces", mpf.sum(axis=(0, 1)), Ftot, **case))
+    Mm = np.cross(dm - P, mpf).sum(axis=(0, 1))
+    if np.max(np.abs(Mm - Mtot)) > 1e-8 * ms * F[..., 0].size:
+        out.append(_fail("coupled point: moment of the exported mesh-node forces != moment of the panel forces on the deformed mesh", Mm, Mtot, **case))
+    # aerodynamics alone, several surfaces
+    from .oracles_aero import _aero_config, _flow
+    surfaces = _aero_config(rng, tier)
+    fl = _flow(rng, Mach_number=float(rng.uniform(0.3, 0.8)))
+    if not any(x["symmetry"] for x in surfaces):
+        fl["beta"] = float(rng.uniform(-8, 8))
+    pa = pipelines.run_aero_point(surfaces, fl, compressible=compressible)
+    for x in surfaces:
+        n = x["name"]; m = x["mesh"]
+        F = np.array(pa.get_val("pt.aero_states.%s_sec_forces" % n)); mpf = np.array(pa.get_val("pt.aero_states.%s_mesh_point_forces" % n))
+        qc = 0.75 * 0.5 * (m[:-1, :-1] + m[:-1, 1:]) + 0.25 * 0.5 * (m[1:, :-1] + m[1:, 1:])
+        Mtot = np.cross(qc - P, F).sum(axis=(0, 1)); fs = np.abs(F).max(); ms = max(np.abs(Mtot).max(), fs)
+        c2 = dict(model="AeroPoint", surface=n, compressible=compressible, alpha=fl["alpha"], beta=fl["beta"], Mach_number=fl["Mach_number"],
+                  shapes=[list(y["mesh"].shape) for y in surfaces])
+        if np.max(np.abs(mpf.sum(axis=(0, 1)) - F.sum(axis=(0, 1)))) > 1e-9 * fs * F[..., 0].size:
+            out.append(_fail("aero point: exported mesh-node forces do not sum to the panel forces", mpf.sum(axis=(0, 1)), F.sum(axis=(0, 1)), **c2))
+        Mm = np.cross(m - P, mpf).sum(axis=(0, 1))
+        if np.max(np.abs(Mm - Mtot)) > 1e-8 * ms * F[..., 0].size:
+            out.append(_fail("aero point: moment of the exported mesh-node forces != moment of the panel forces", Mm, Mtot, **c2))
+    return out
+
+
 @oracle("C01", "group_check_partials")
 def c01_group_partials(rng, tier):
     """an assembled model (aero point with random options, aerostructural point with tube or wingbox, structure alone with fuel and
@@ -860,6 +920,7 @@ def c01_group_partials(rng, tier):
 
 
 def _c01_group_partials(rng, tier, kind):
+    from . import oracles as _o
     if kind == "aerostruct":
         s = _as_surface(rng, tier, fem="random", struct_weight_relief=bool(rng.integers(2)), with_wave=bool(rng.integers(2)),
                         chord_cp=np.array([1.0, 1.1]))
@@ -867,7 +928,9 @@ def _c01_group_partials(rng, tier, kind):
         case = dict(model="AerostructPoint", fem_model_type=s["fem_model_type"], symmetry=s["symmetry"], k_lam=s["k_lam"], S_ref_type=s["S_ref_type"])
     elif kind == "aero":
         from .oracles_aero import _aero_config, _flow
-        surfaces = _aero_config(rng, tier, ns=int(rng.choice([1, 2])))
+        # the components that stack several surfaces keep running offsets: three or more surfaces in every other case
+        ns = (3 + int(rng.integers(2))) if (_o.CURRENT_K // 3) % 2 == 0 else int(rng.choice([1, 2]))
+        surfaces = _aero_config(rng, tier, ns=ns)
         for x in surfaces:
             x["with_viscous"] = bool(rng.integers(2)); x["with_wave"] = bool(rng.integers(2))
             x["k_lam"] = float(rng.choice([0.05, 0.0, 1.0]))
@@ -958,7 +1021,9 @@ def c03_single_input_history(rng, tier):
         names = ["alpha", "v", "rho", "Mach_number", "load_factor", "wing.twist_cp", _thk(s)[0], "W0", "R", "CT"]
     elif kind == "aero":
         from .oracles_aero import _aero_config, _flow
-        surfaces = _aero_config(rng, tier, ns=int(rng.choice([1, 2])))
+        # the components that stack several surfaces keep running offsets: three or more surfaces in every other case
+        ns = (3 + int(rng.integers(2))) if (_o.CURRENT_K // 3) % 2 == 0 else int(rng.choice([1, 2]))
+        surfaces = _aero_config(rng, tier, ns=ns)
         for x in surfaces:
             x["with_viscous"] = True; x["with_wave"] = bool(rng.integers(2))
         fl = _flow(rng, Mach_number=float(rng.uniform(0.3, 0.8)))
